@@ -22,7 +22,9 @@ META = {
              'divergences from InMemory (documented behaviour of the wrappers): delete of a missing key reports NotFound; '
              'update without e_tag reports Precondition; rename onto itself keeps the object; version-conditioned updates '
              'are refused (no versions); `head` reads return no body. Concurrent callers per key: all 2-caller reader/writer schedules at backend-call '
-             'granularity are run on the implementation (judge: one commit per view, never an older commit after an acknowledged one); '
+             'granularity are run on the implementation (judge: one commit per view, never an older commit after an acknowledged one, conditional reads '
+             'answered as the reference answers before or after the writer); the placement of the precondition check in get_opts\' retry loop is a '
+             'generated fact and the one-commit answer is proved on a model of the retry loop (Store/CondRead.v), its check-once variant refuted; '
              'not proved in Coq beyond the mutex abstraction of moka\'s per-key compute section; writer/writer races are not explored (partial).'),
     'technique': 'Coq proof (refinement to a reference store by induction over histories, injectivity argument, lia over div/mod) + translator-generated facts + differential run wrapper vs InMemory + model vs wrapper',
 }
@@ -45,8 +47,12 @@ def run(ck):
                'list_with_delimiter; delete; copy and rename in both target modes; cold restarts), payload sizes '
                '{0,1,cs-1,cs,cs+1,2cs,3cs+2,5} and two byte-identical payloads, x MetaStore and EncryptedStore with chunk size '
                '1/7/16/65536; plus two callers per key: every interleaving of the backend calls of one reader (list / list_with_delimiter / '
-               'list_with_offset / head / get / get_ranges) and one writer (put / copy / multipart / delete) of the same key through one '
-               'instance with a cold metadata cache, with and without a failing cleanup of the replaced generation; '
+               'list_with_offset / head / get / get_ranges, and 17 conditional get_opts: if_match / if_none_match / if_unmodified_since / '
+               'if_modified_since satisfied by the old commit only, the new only, both, neither, two combinations, with head and with a range) '
+               'and one writer (put / copy / multipart / delete) of the same key through one instance with a cold metadata cache, with and '
+               'without a failing cleanup of the replaced generation: all schedules with at most one preemption (two in the thorough tier), '
+               'a bounded depth-first prefix of the full choice tree and random schedules; a conditional read must answer what InMemory '
+               'answers to the same conditional read before or after the same writer (verdict, bytes, token, size, timestamp of one commit); '
                'non-trivial = a distinct sequence with >= 3 mutating calls')
     ck.translate()
     ck.coq(['Store/Props_C07.v'], ['Store', 'gen', 'Common'], model_targets=['Store/Run.vo'])
@@ -69,7 +75,8 @@ def run(ck):
             ck.count(summary['evaluations'])
             ck.cov['input_distribution'] = {k: summary[k] for k in (
                 'sequences', 'calls', 'results', 'wrappers', 'tolerated_divergences', 'cas_ok', 'cas_rejected',
-                'rewrites_after_retired_token', 'span_cases', 'pre_cases', 'two_caller_scenarios', 'two_caller_schedules', 'two_caller_exhaustive')}
+                'rewrites_after_retired_token', 'span_cases', 'pre_cases', 'two_caller_scenarios', 'two_caller_schedules', 'two_caller_exhaustive',
+                'two_caller_context_bounded_schedules', 'two_caller_conditional_readers')}
             for f in summary['failures']:
                 ck.violation(f['class'], f['what'], True, {'failing_input': f})
             import vlib
